@@ -253,7 +253,7 @@ func TestC07nsx(t *testing.T) {
 	})
 }
 
-const ruleC12 = "schedules owned by the harness: a holder (drc or do-approve, approve or compare, device given as absolute path / relative path / ipv6 path / name) is started against sshdev and parked before reading dialogue line p (before login, after login, during config read, between change commands, before save, after save), in one of four ASA/IOS cases on a device configuration of more than 4000 lines (long session with much allocation between taking the lock and the contender's start); while it is parked 1-3 contenders of all front-end x spelling combinations run to completion; then the holder is released or SIGKILLed and a follower is started; plus a stress arm that starts 2-4 runs at once (OS-owned schedule); " +
+const ruleC12 = "schedules owned by the harness: a holder (drc or do-approve, approve or compare, device given as absolute path / relative path / ipv6 path / name) is started against sshdev and parked before reading dialogue line p (before login, after login, during config read, between change commands, before save, after save) or, for a do-approve holder in one of six cases, blocked after its device session while it reports and records the result (its output pipe is full), in one of four ASA/IOS cases on a device configuration of more than 4000 lines (long session with much allocation between taking the lock and the contender's start); while it is parked 1-3 contenders of all front-end x spelling combinations run to completion; then the holder is released or SIGKILLed and a follower is started; plus a stress arm that starts 2-4 runs at once (OS-owned schedule); " +
 	"non-trivial = at least one contender ran while the holder was parked after lock acquisition (stress arm: at least one run was refused); distinct = hash of the schedule"
 
 // bigUnmanagedACL is an unbound ACL without generated name (outside
@@ -305,6 +305,13 @@ func TestC12(t *testing.T) {
 			ls.Contenders = append(ls.Contenders, drawInvocation(rt, "contender"))
 		}
 		ls.Kill = rapid.IntRange(0, 2).Draw(rt, "kill") == 0
+		if rapid.IntRange(0, 5).Draw(rt, "tail") == 0 {
+			// holder blocked while it reports its result (after the session)
+			ls.Tail = true
+			ls.Holder.Front = "do-approve"
+			ls.Holder.Spell = ""
+			ev.Class("c12:tail")
+		}
 		ls.Follower = drawInvocation(rt, "follower")
 		if ls.Follower.Spell == "ipv6" {
 			ls.Follower.Spell = "rel"
